@@ -1226,6 +1226,8 @@ class Gen:
             if f == 'C07':
                 w['get'] = 6
                 w['lookup'] = 0.5 if ident else 0.05
+                # rejected additions (every kind, every position incl. the first of a session): no element of the list
+                w['bad'] = 1.0 if h['mode'] != 'read' else 0.1
             if f == 'C08':
                 w['lookup'] = 6 if ident else 0.4
                 w['bad'] = 0.5
